@@ -31,6 +31,14 @@ def cases(draw, tier):
     cfg.update(draw(gg.harmless_extras()))
     cfg["instances_report_mode"] = "mixed"
     target = draw(common.target_spec(g))
+    if draw(st.integers(0, 3)) == 0:
+        # shape-map shapes: unlike class shapes (which always keep their typing constraint) they can lose every constraint at a
+        # higher threshold and be removed, together with the references to them
+        from . import c10
+        n = draw(st.integers(1, 3))
+        target = {"mode": "sm", "with_all": draw(st.booleans()),
+                  "items": [{"sel": draw(c10.selector(g)), "label": "<http://sh.org/S%d>" % i,
+                             "styles": draw(st.lists(st.integers(0, 1), min_size=4, max_size=4))} for i in range(n)]}
     sel = refmodel.select_by_classes(triples_from_json(g["triples"]), g["inst_prop"])
     sizes = sorted({len(v) for v in sel.values()})
     bounds = sorted({k / n for n in sizes for k in range(1, n + 1)})
@@ -59,7 +67,21 @@ figures = oracle.fact_map
 
 
 def check(case):
-    kw, triples = common.base_kwargs(case)
+    sm = case["target"] if case["target"]["mode"] == "sm" else None
+    if sm is not None:
+        from .. import selectors
+        from . import c10
+        triples_ = triples_from_json(case["g"]["triples"])
+        for it in sm["items"]:
+            if any(a[0] != "iri" for a in selectors.evaluate(it["sel"], triples_)):
+                return discard("non-iri-answer")     # rdflib re-labels blank nodes on every parse
+        kw, triples = common.base_kwargs(dict(case, target={"mode": "all"}))
+        if not sm["with_all"]:
+            kw.pop("all_classes_mode", None)
+        kw["shape_map_raw"] = "\n".join("%s@%s" % (selectors.render(it["sel"], c10.NSD, it["styles"]), it["label"]) for it in sm["items"])
+        kw["namespaces_dict"] = dict(c10.NSD)
+    else:
+        kw, triples = common.base_kwargs(case)
     cfg = case["cfg"]
     inst_prop = case["g"]["inst_prop"]
     docs = {}
@@ -115,6 +137,14 @@ def check(case):
                     continue
                 if fa[k] != fb[k]:
                     return violation("figure of surviving alternative %s in %s differs: t=%r -> %s, t=%r -> %s\n--- t1 ---\n%s\n--- t2 ---\n%s" % (k, lab, t1, fa[k], t2, fb[k], texts[t1], texts[t2]), labels, True)
+    if sm is not None:
+        labels.add("shape-map")
+        if nt:
+            labels.add("nontrivial")
+        labels.add("grid-%d" % min(len(case["grid"]), 9))
+        if kf_nonlit:
+            return known("C12-NONLIT", repr(kf_nonlit[0]), labels, nt)
+        return ok(labels, nt)
     # end points against the reference profiler
     M, sel, label_of = common.model_for(case, triples)
     if len(set(label_of.values())) != len(label_of):
